@@ -4,6 +4,10 @@ from ..engines import statepickle as R
 
 
 def run(ctx):
+    # language-level slips in the modules the property is anchored in (engine Y)
+    from ..engines import gotchas as GY
+    GY.run(ctx, tuple(m.short for m in ctx.P.modules.values()))   # the searcher's state spans the whole package
+    ctx.floor("Y", 1)
     ctx.extra["explanation"] = (
         "static analysis (ast, no execution): the closure of classes reachable from the searcher's "
         "attributes holds no unpicklable attribute value and no custom pickling hooks, every class of "
@@ -52,3 +56,7 @@ def run(ctx):
     from ..engines import statepickle as RR
     RR.r8_one_shot_iterables_not_kept(ctx)
     ctx.floor("R8", 1)
+    # classes on a cycle of one-way rules are one class: found whenever the search is asked, whatever happened in between
+    from ..engines import equivrules as QE
+    QE.k16_connect_cycles(ctx)
+    ctx.floor("K16", 3)
